@@ -27,6 +27,9 @@ SCRIPTS = [
     # (the built-in bases in one script, the derived commands in another: which one a process meets first must not matter)
     'redirect "b@example.com";\nif exists "to" { keep; }\n',
     'fwdtwo "a@example.com" "hello";\nif existsin "to" "INBOX" { keep; }\n',
+    # a value that one script declares (comparator-*) and uses in a restricted-value slot, and another script that uses it undeclared
+    'require "comparator-i;ascii-numeric";\nif header :comparator "i;ascii-numeric" "a" "b" { keep; }\nif header :comparator "i;octet" "a" "b" { keep; }\n',
+    'if header :comparator "i;ascii-numeric" "a" "b" { keep; }',
 ]
 FS_OPS = [
     ("add-plain", [("Subject", ":is", "x")], [("fileinto", "B")]),
@@ -317,7 +320,15 @@ def run(tier, seed):
     viols = []
     for r in res:
         viols.extend(r["violations"])
-    cov = dict(states=sum(r["states"] for r in res), transitions=n * depth, traces_validated_against_impl=n, evaluations=n,
+    # other Parser objects at work *during* a parse (re-entrant or threaded use): every schedule up to a preemption bound of two or
+    # three parses of core-only scripts on distinct objects; each outcome must equal that of the script parsed alone (checks/c03.py)
+    from . import c03
+    ob = 2 if tier == "quick" else 3
+    ro = pool.run_tasks("checks.c03:overlap_task", [(g, ob if len(g) == 2 else ob - 1, "C13") for g in c03.overlap_groups(tier)])
+    for r in ro:
+        viols.extend(r["violations"])
+    n_overlap = sum(r["n"] for r in ro)
+    cov = dict(overlap_schedules=n_overlap, states=sum(r["states"] for r in res), transitions=n * depth + n_overlap, traces_validated_against_impl=n, evaluations=n,
                distinct_nontrivial=len(btasks),
                rule="E1: every history of <= %d of the %d events (parse of %d scripts on reused parser P1 / reused parser P2 / a fresh parser; %d FiltersSet "
                     "operations on F1 / F2) without deduplication; each event's outcome (verdict, error, error_pos, tree, serialisation; or return/exception "
@@ -342,6 +353,9 @@ def replay_task(t):
 def replay(payload):
     """everything runs in forked workers so that the calling process stays pristine"""
     seams.load()
+    if payload["case"].get("overlap"):
+        from . import c03
+        return c03.replay(payload)
     hist = [tuple(e) for e in payload["case"]["history"]]
     depth = len([e for e in hist if e[0] == "fs"]) or 1
     btasks = [("parse", i) for i in range(len(SCRIPTS))]
